@@ -420,9 +420,14 @@ def check_output(
             obj = out[obj_getter]
             validated = _try_validate(obj)
             if isinstance(out, tuple):
-                out = list(out)
-                out[obj_getter] = validated
-                out = tuple(out)
+                items = list(out)
+                items[obj_getter] = validated
+                # a named tuple is rebuilt as its own class
+                out = (
+                    type(out)(*items)
+                    if hasattr(out, "_fields")
+                    else tuple(items)
+                )
             else:
                 out[obj_getter] = validated
             return out
